@@ -189,6 +189,23 @@ def check_sum_buffers(run, cx, cfg):
     run.check(bad is None, 'node.sum_buffers', fn, cfg, bad or '', where=where(body))
 
 
+def first_input_absent(p, d):
+    """how the path decided whether there is a first input: inputs.get(0) / inputs.first() matched on, or the slice pattern
+    `let [input, ..] = inputs else { .. }` (a test `inputs.len() >= 1`); True = absent, False = present, None = not looked at"""
+    gets = [(k, e) for k, e in call_events(p) if rp(e) in ('core::slice::<impl [T]>::get', 'core::slice::<impl [T]>::first')]
+    if gets and d.slice_of(gets[0][1]['args'][0]) == INS and not (rp(gets[0][1]).endswith('::get') and gets[0][1]['args'][1] != ('int', 0, 'usize')):
+        v = dict(cond_facts(p)).get(('discr', ('ret', gets[0][0])))
+        return True if v == ('int', 0, 'isize') else (False if v == ('int', 1, 'isize') else None)
+    for c, val in cond_facts(p):
+        if c[0] == 'op' and c[1] in ('Ge', 'Lt', 'Eq', 'Ne', 'Gt') and c[2][0] == 'len' and d.slice_of(c[2][1]) == INS and val[0] == 'bool':
+            k = c[3]
+            if c[1] in ('Ge', 'Lt') and k == ('int', 1, 'usize'):
+                return (not val[1]) if c[1] == 'Ge' else val[1]
+            if c[1] in ('Eq', 'Ne', 'Gt') and k == ('int', 0, 'usize'):
+                return val[1] if c[1] == 'Eq' else (not val[1])
+    return None
+
+
 def check_pass(run, cx, cfg):
     fn = '<dasp_graph::node::pass::Pass as %s>::process' % NODE
     body = cx.body(fn)
@@ -203,11 +220,10 @@ def check_pass(run, cx, cfg):
         d = Den(p)
         calls = key_calls(p, d, (CFS, ADD))
         # inputs.get(0), or its other spelling inputs.first()
-        gets = [(k, e) for k, e in call_events(p) if rp(e) in ('core::slice::<impl [T]>::get', 'core::slice::<impl [T]>::first')]
-        if not gets or d.slice_of(gets[0][1]['args'][0]) != INS or (rp(gets[0][1]).endswith('::get') and gets[0][1]['args'][1] != ('int', 0, 'usize')):
+        none = first_input_absent(p, d)
+        if none is None:
             bad = 'must look at inputs.get(0)'
             break
-        none = dict(cond_facts(p)).get(('discr', ('ret', gets[0][0]))) == ('int', 0, 'isize')
         if none:
             if calls or heap_writes(p):
                 bad = 'without an input the outputs must be left untouched'
@@ -238,12 +254,12 @@ def check_delay(run, cx, cfg):
     for p in ps:
         d = Den(p)
         # inputs.get(0), or its other spelling inputs.first()
-        gets = [(k, e) for k, e in call_events(p) if rp(e) in ('core::slice::<impl [T]>::get', 'core::slice::<impl [T]>::first')]
-        if not gets or d.slice_of(gets[0][1]['args'][0]) != INS or (rp(gets[0][1]).endswith('::get') and gets[0][1]['args'][1] != ('int', 0, 'usize')):
+        none = first_input_absent(p, d)
+        if none is None:
             bad = 'must look at inputs.get(0)'
             break
         pushes = [(k, e) for k, e in call_events(p) if rp(e) == PUSH]
-        if dict(cond_facts(p)).get(('discr', ('ret', gets[0][0]))) == ('int', 0, 'isize'):
+        if none:
             if pushes or heap_writes(p):
                 bad = 'without an input nothing may be pushed or written'
             kinds.add('absent')
